@@ -79,7 +79,7 @@ func VerifC19LoadArbitraryCsv() {
 // a table, a removed working directory, an injected I/O fault: every statement ends with an
 // ordinary error.
 func VerifC19FileStates() {
-	state := verifChoice("state", 5)
+	state := verifChoice("state", 7)
 	tx := verifNewTx()
 	tx.Flags.Quiet = true
 	proc := NewProcessor(tx)
@@ -97,10 +97,17 @@ func VerifC19FileStates() {
 		verifFileWrite("t.csv", "a\n1\n")
 		verifFileRemove(".")
 		stmts = verifParse("select * from t;")
-	default:
+	case 4:
 		verifFileWrite("t.csv", "a\n1\n")
 		verifFaults(1)
 		stmts = verifParse("update t set a = 2; commit;")
+	case 5:
+		// the same file as a table and as an inline table in one transaction
+		verifFileWrite("t.csv", "a\n1\n")
+		stmts = verifParse("select * from t; select * from csv_inline(',', `t.csv`); update t set a = 2; select * from csv_inline(',', `t.csv`); rollback;")
+	default:
+		verifFileWrite("t.csv", "a\n1\n")
+		stmts = verifParse("select * from csv_inline(',', `t.csv`); select * from t; select * from csv(',', `t.csv`);")
 	}
 	_, err := proc.Execute(verifCtx(), stmts)
 	verifFaults(0)
@@ -121,7 +128,7 @@ func VerifC19FunctionArgs() {
 	scope := NewReferenceScope(tx)
 	ints := []int64{0, -1, 1, 3, -100, 100, 9223372036854775807, -9223372036854775808}
 	nArg := ints[verifChoice("n", len(ints))]
-	mArg := ints[verifChoice("m", 5)]
+	mArg := ints[verifChoice("m", len(ints))]
 	strs := []string{"", "abc", "%d", "[", "{\"a\":1}", "ａ", "-1"}
 	verifVar(scope, "n", value.NewInteger(nArg))
 	verifVar(scope, "m", value.NewInteger(mArg))
@@ -130,7 +137,13 @@ func VerifC19FunctionArgs() {
 	verifVar(scope, "d", value.NewDatetime(verifEpoch()))
 	verifVar(scope, "z", value.NewNull())
 	fi := verifChoice("fn", len(verifC19FnSrc))
-	if (fi == 0 || fi == 1) && (nArg > 1000 || nArg < -1000) {
+	if (mArg > 1000 || mArg < -1000) && !(fi == 3 || fi == 4 || fi == 5) {
+		// an extreme second number only for the substring / list functions: as a precision or an
+		// exponent it asks for an absurd amount of memory (resource exhaustion, not an internal failure)
+		verifReach("skipped: extreme second number")
+		return
+	}
+	if (fi == 0 || fi == 1) && nArg > 1000 && nArg < 1<<62 {
 		verifReach("skipped: padding to an absurd length is resource exhaustion, not an internal failure")
 		return
 	}
